@@ -68,6 +68,27 @@ class Runner:
         self.steps = 0
 
     def new_decoder(self):
+        """the decoder object as its constructor leaves it (interpreted with default arguments); a constructor the interpreter cannot follow
+        leaves the minimal object: the buffer map and the class constants"""
+        dec = A.AObj()
+        dec.attrs.update(A.class_constants(None, self.program.cls('decoder', CLS)))
+        if getattr(self, '_ctor_ok', True):
+            try:
+                init = self.methods.get('__init__')
+                def hook(it, call, env):
+                    name = ast.unparse(call.func)
+                    if name in ('datetime.now', 'datetime.utcnow', 'time.time', 'time.monotonic'):
+                        return A.AInt(5)
+                    if name == 'open' or name.startswith('os.'):
+                        return A.AOpaque(name)
+                    return NotImplemented
+                it = A.Interp(hook=hook, skip=is_logger, methods=self.methods, classes=self.classes, module=A.ModuleEnv(self.program.mod('decoder').tree))
+                it.call_function(init, [dec])
+                if isinstance(dec.attrs.get('data'), A.ADict):
+                    return dec
+            except (A.Unknown, A.RaiseSignal, AttributeError):
+                pass
+            self._ctor_ok = False
         dec = A.AObj(data=A.ADict())
         dec.attrs.update(A.class_constants(None, self.program.cls('decoder', CLS)))
         return dec
@@ -79,7 +100,7 @@ class Runner:
             name = ast.unparse(call.func)
             if name.endswith('._call_decode_function'):
                 delivered.append([it.expr(a, env) for a in call.args] + [it.expr(k.value, env) for k in call.keywords])
-                return A.AObj(marker=True)
+                return None if getattr(self, 'decode_returns_none', False) else A.AObj(marker=True)
             return NotImplemented
         it = A.Interp(hook=hook, skip=is_logger, classes=self.classes, methods=self.methods)
         args = []
@@ -106,7 +127,7 @@ class Runner:
             if len(pl) != 1:
                 raise A.Unknown('payload argument of _call_decode_function not identified')
             return ('delivered', list(reversed(pl[0].items)))
-        if r is not None:
+        if r is not None and not getattr(self, 'decode_returns_none', False):
             return ('returned-without-decode', repr(r))
         return ('none',)
 
@@ -189,6 +210,13 @@ def scenarios(tier):
             a = Msg('A', K, 1, LA); b = Msg('B', K, 2, LB)
             hist = [('A', i) for i in range(a.n) if i != lost] + [('B', i) for i in range(b.n)]
             yield 'RA-RESET', f"LA={LA},lost={lost},LB={LB}", {'A': a, 'B': b}, hist, [(len(hist) - 1, 'B')]
+    # every pair of distinct counters is a different message (a 2-bit comparison would confuse s and s+4)
+    for sa in range(8):
+        for sb in range(8):
+            if sa != sb:
+                a = Msg('A', K, sa, 20); b = Msg('B', K, sb, 20)
+                hist = [('A', 0), ('A', 1)] + [('B', i) for i in range(b.n)]
+                yield 'RA-SEQ', f"abandoned-counter={sa},next-counter={sb}", {'A': a, 'B': b}, hist, [(len(hist) - 1, 'B')]
     # RA-RESET: B restarts while A is in progress; A's tail arrives afterwards
     a = Msg('A', K, 1, 27); b = Msg('B', K, 2, 13)
     hist = [('A', 0), ('A', 1), ('B', 0), ('A', 2), ('B', 1), ('A', 3)]
@@ -254,6 +282,14 @@ def scenarios(tier):
 def explore(chk, program, tier, rules=None):
     """run the scenario families; rules: the subset of RA-* names this property claims"""
     R = Runner(program)
+    _explore(chk, program, tier, rules, R, decode_returns='message')
+    # the same with a decode stage that returns None (the message is filtered out by id, or has no sub-decoder): the buffer bookkeeping must not depend on it
+    R.decode_returns_none = True
+    n2 = _explore(chk, program, tier, {'RA-DONE'} & set(rules if rules is not None else ['RA-DONE']), R, decode_returns='None', suffix='|decode-returns-None')
+    R.decode_returns_none = False
+    return chk.units.get('reassembly_histories', 0)
+
+def _explore(chk, program, tier, rules, R, decode_returns='message', suffix=''):
     count = 0
     seen_unknown = set()
     for rule, name, msgs, hist, expected in scenarios(tier):
@@ -296,10 +332,10 @@ def explore(chk, program, tier, rules=None):
         found = 'as expected'
         if not ok:
             found = problem or ('delivered ' + (', '.join(f"{w} at step {s}" for s, w in got) or 'nothing'))
-        chk.check(ok, rule, name, file=DEC, line=R.fn.lineno, func='_decode_fast_message',
+        chk.check(ok, rule, name + suffix, file=DEC, line=R.fn.lineno, func='_decode_fast_message',
                   expected='frames [' + describe(hist, msgs) + '] -> ' + (', '.join(f"{w} (payload[0..{msgs[w].L - 1}]) at step {s}" for s, w in expected) or 'nothing delivered'),
                   found=found, detail='' if ok else _why(rule))
-    chk.unit('reassembly_histories', count)
+    chk.unit('reassembly_histories', chk.units.get('reassembly_histories', 0) + count if suffix else count)
     chk.unit('reassembly_steps', R.steps)
     return count
 
